@@ -102,6 +102,10 @@ class _Handler(BaseHTTPRequestHandler):
 
 
 class _Server(ThreadingHTTPServer):
+    # a wide repository opens a few hundred connections at once; the default listen backlog (5) would drop SYNs on a loaded
+    # machine and the client would report a connection timeout that has nothing to do with blockwatch
+    request_queue_size = 2048
+
     def handle_error(self, request, client_address):
         pass     # clients that exit mid-reply (fault runs) are expected
 
